@@ -27,6 +27,48 @@ CHECKS = {
          "Exploration: every (n, fractions, shuffle, batch size, transform) configuration of a stated finite grid is executed on the real functions and compared with an executable index model; unique sample ids make loss, duplication, mis-pairing and re-ordering directly observable. Held = held on that grid.",
          "Trusts NumPy and the 40-line model in props/c18_data.py; pkbar replaced by a silent stub if unimportable.", "DESIGN.md §4 C18"),
 }
+
+CHECKS.update({
+ "C04": ("runtime monitoring: event histories over shared leaves checked after every event against a ledger of finite-difference contributions from fresh re-executions; byte snapshots of everything unreachable from each root; backward-trace monitor",
+         "Exploration: random histories (build / backward from any root or interior node / repeat / retain_grad / retain_grads / three reset paths / reuse of earlier results / backward on a leaf) plus the named scenarios run on the real engine; every leaf's .grad is compared with the sum of independently computed contributions after each event.",
+         "Trusts harness/fd.py and the global-program bookkeeping in props/c04_accumulation.py; retained non-leaf .grad values are not asserted.", "DESIGN.md §4 C04"),
+ "C07": ("runtime monitoring: stack model of the two grad-mode flags + behavioural probes after every context enter/exit (incl. exception exits, pre-constructed and re-entered context objects) + grad-mode and release-discipline monitors",
+         "Exploration: random nested programs over no_grad / retain_grads to depth 6 with probes of requires_grad propagation, grad_fn/is_leaf, backward refusal, setter and retain_grad/numpy/detach guards, and leaf-keeps / intermediate-releases behaviour.",
+         "Trusts the 20-line stack model; retain_grads mixed build/differentiate combinations are not asserted.", "DESIGN.md §4 C07"),
+ "C08": ("runtime monitoring: histories of backward / zero_grad / step / freeze events compared step by step with float64 reference implementations of the torch.optim algorithms; identity, dtype, shape, bystander and frozen-parameter byte checks",
+         "Exploration: thousands of histories over the hyper-parameter grid on 1-4 parameters (0-d, size-1, float32/float64) with gradients produced by the real engine.",
+         "Trusts the reference optimizers in props/c08_optimizers.py; for SGD maximize+weight_decay both the documented pseudo-code and torch's implementation are accepted; bias-correction after skipped steps is not asserted.", "DESIGN.md §4 C08"),
+ "C10": ("runtime monitoring: direct dtype/shape contracts on every op form in both dtypes, float32-vs-float64 forward-error comparison, grad shape/dtype monitor walking the whole graph after each backward",
+         "Exploration: both op catalogues x dtypes x scalar operands x broadcasting x 0-d results x upstream-gradient dtype, incl. layers with default float32 parameters fed float64 inputs.",
+         "Trusts NumPy dtype semantics and the forward-error bound.", "DESIGN.md §4 C10"),
+ "C11": ("runtime monitoring: byte snapshots of operands / targets / caller's gradient / bystanders around forward, backward, follow-up events and repeats; kernel argument-mutation sanitizer naming the kernel; digest equality of repeats",
+         "Exploration: both catalogues with operands stored as plain, transposed, strided, reshaped and shared-base views, random DAG programs with bystander graphs, and the documented mutators.",
+         "Aliasing without a write is not reported; bit-identical repeats are asserted within one process with BLAS pinned to one thread.", "DESIGN.md §4 C11"),
+ "C12": ("runtime monitoring: random module-tree construction and action programs compared after every step with a plain-Python registry-tree model; tagging modules observe Sequential order",
+         "Exploration: tens of thousands of trees (attribute assignment, explicit registration, Sequential positional/OrderedDict/empty, shared modules and parameters, re-assignment to module/parameter/None/value) with train/eval/freeze/unfreeze/zero_grad on any node.",
+         "Trusts the model in props/c12_modules.py; order after same-kind re-assignment is relaxed.", "DESIGN.md §4 C12"),
+ "C13": ("runtime monitoring: BatchNorm train/eval/forward/perturb histories against an executable model of the PyTorch rules + digest equality of eval calls; Dropout statistics in 6-sigma bands, mask independence and gradient-through-the-same-mask checks",
+         "Exploration: histories over momentum {0.1,0.5,1,None} x affine x track_running_stats x ranks x dtypes; dropout p in {0,...,1} with n >= 40000 per case.",
+         "Trusts harness/ref/nnref.batch_norm and 6-sigma statistics (false alarm < 2e-9 per test).", "DESIGN.md §4 C13"),
+ "C14": ("runtime monitoring: metamorphic identities - both sides computed by the library from independent leaves, values and every operand gradient compared",
+         "Exploration: the sixteen documented identities over geometry / dim / reduction grids with random operands and upstream gradients.",
+         "Both sides run library code: a defect common to both is invisible here (C01/C02/C05/C06 cover each side against independent references).", "DESIGN.md §4 C14"),
+ "C15": ("runtime monitoring: statistical oracle (6-sigma bands on mean/std/shape, bound tests) on the real initialisers + exact tables for gains and fans + identity/dtype/shape/flag contracts",
+         "Exploration: nine initialisers x shapes of rank 2-5 with >= 20000 elements x gains x modes x nonlinearities x slopes x dtypes; fresh layer parameters pooled over constructions.",
+         "Trusts the documented formulas transcribed in props/c15_init.py; failing bands are re-sampled with 4x n before being reported.", "DESIGN.md §4 C15"),
+ "C16": ("runtime monitoring: cross-variant equality (bit-exact im2col, 1e-12 col2im), adjoint identity on random x/y, multiplicity by counting loops, loop reference for the layout, exact stride-bounds sanitizer, crash containment",
+         "Exploration: geometry grid enumerated per axis (thorough ~88k geometry cases), both layouts, pad values, int/tuple/mixed forms, empty geometries.",
+         "Trusts harness/ref/nnref.unfold/fold.", "DESIGN.md §4 C16"),
+ "C17": ("runtime monitoring: backward-trace exactly-once/order monitor on chains up to 2e5 ops at the default recursion limit, Python-call counts (sys.setprofile) at N and 2N, live-tensor registry sampled at quiescent points of untracked loops, weak references",
+         "Exploration (bounded progress): stated sizes only - chains 1e3..2e5, wide 2000-term graphs, depth-60 ladders, untracked loops up to 1e5 updates.",
+         "Linearity decided on counted calls, never on wall-clock; memory decided on live Tensor objects.", "DESIGN.md §4 C17"),
+ "C19": ("runtime monitoring: SHA-256 digests of every produced array across >= 6 fresh processes (PYTHONHASHSEED 0/1/4242/random x allocation-layout shifts) and 2-3 in-process repeats; RNG tap on generator constructors called from library code",
+         "Exploration: programs over all random-consuming APIs, 3-10 training steps with each optimizer, and unseeded DAG programs with 40-term fan-in.",
+         "Same machine, BLAS pinned to one thread.", "DESIGN.md §4 C19"),
+ "C20": ("runtime monitoring: trainer trace (optimizer.step/zero_grad, train/eval, forward, loss, backward with per-event training flags, behaviourally probed gradient mode and parameter/buffer digests) checked offline against the grammar of the statement; history and accuracies recomputed from recorded batches",
+         "Exploration: Trainer.fit / test over epochs x batches x validation x evaluator x three label modes x optimizers x callbacks on models with Dropout and BatchNorm.",
+         "pkbar replaced by a silent stub if unimportable; batch sizes >= 2.", "DESIGN.md §4 C20"),
+})
 PENDING = {}
 
 def main():
